@@ -18,7 +18,7 @@ def parse(text):
     if isinstance(text, ast.AST):
         return text
     if text not in _parse_cache:
-        _parse_cache[text] = ast.parse(text.strip(), mode="eval").body
+        _parse_cache[text] = ast.parse("(" + text.strip() + ")", mode="eval").body
     return _parse_cache[text]
 
 
@@ -27,12 +27,17 @@ class Scope:
         self.env, self.heap, self.old_heap, self.old_env = env, heap, old_heap, old_env
         self.alloc, self.alloc0 = alloc, alloc0
         self.ghost = ghost or {}
+        self.qdepth = 0
 
-    def with_env(self, env):
-        return Scope(env, self.heap, self.old_heap, self.old_env, self.alloc, self.alloc0, self.ghost)
+    def with_env(self, env, deeper=False):
+        s = Scope(env, self.heap, self.old_heap, self.old_env, self.alloc, self.alloc0, self.ghost)
+        s.qdepth = self.qdepth + (1 if deeper else 0)
+        return s
 
     def as_old(self):
-        return Scope(self.old_env, self.old_heap, self.old_heap, self.old_env, self.alloc0, self.alloc0, self.ghost)
+        s = Scope(self.old_env, self.old_heap, self.old_heap, self.old_env, self.alloc0, self.alloc0, self.ghost)
+        s.qdepth = self.qdepth
+        return s
 
 
 _specfn_cache = {}
@@ -112,6 +117,11 @@ def attr_of(base, attr, sc):
     if isinstance(base.t, TOpt):
         base = base.v[1]  # spec-level: caller guards with `is not None`
     if isinstance(base.t, TRef):
+        d, _ = decl.find_field(base.t.cls, attr)
+        if d is None:
+            sub, _ = decl.find_field_down(base.t.cls, attr)
+            if sub is not None:  # spec-level downcast (the spec guards it with is_a)
+                return heapops.read_field(sc.heap, Val(TRef(sub.short), base.v), attr)
         return heapops.read_field(sc.heap, base, attr)
     raise Unsupported(f"spec: attribute .{attr} on {base.t}")
 
@@ -136,9 +146,11 @@ def _subscript(node, sc):
         return Val(t2, z3.SubSeq(seq, lo, z3.If(hi > lo, hi - lo, 0)))
     idx = sv(node.slice, sc)
     if isinstance(t, TMap):
-        return t.v.make([z3.Select(base.v[1], idx.v)])
+        from .core import key_term
+
+        return t.v.make([z3.Select(base.v[1], key_term(spec_key(idx, t.k, sc)))])
     if isinstance(t, TDict):
-        return heapops.dict_read(sc.heap, base, idx)
+        return heapops.dict_read(sc.heap, base, spec_key(idx, t.k, sc))
     if isinstance(t, TSetV):
         return boolv(z3.Select(base.v, idx.v))
     if isinstance(t, TList):
@@ -154,6 +166,22 @@ def _subscript(node, sc):
             return base.v[i.as_long()]
         raise Unsupported("spec: tuple index must be literal")
     raise Unsupported(f"spec: subscript on {t}")
+
+
+def spec_key(idx, kt, sc):
+    from .core import compatible
+
+    if compatible(idx.t, kt):
+        return coerce(idx, kt)
+    if isinstance(kt, TMap) and isinstance(idx.t, TRef):
+        for dd in decl.mro_decls(idx.t.cls):
+            if dd.mapping_delegate:
+                return heapops.dict_as_map(sc.heap, heapops.read_field(sc.heap, idx, dd.mapping_delegate))
+    if isinstance(kt, TTuple) and isinstance(idx.t, TTuple):
+        return Val(kt, tuple(spec_key(x, t, sc) for x, t in zip(idx.v, kt.items)))
+    if isinstance(kt, TOpt):
+        return coerce(idx, kt)
+    raise Unsupported(f"spec: key {idx.t} for {kt}")
 
 
 def norm_index(i, n):
@@ -174,6 +202,8 @@ def _compare(node, sc):
     for op, rn in zip(node.ops, node.comparators):
         right = sv(rn, sc)
         if isinstance(op, (ast.In, ast.NotIn)):
+            if isinstance(right.t, (TMap, TDict)):
+                left = spec_key(left, right.t.k, sc)
             c = ops.contains(heapops, sc.heap, right, left)
             terms.append(c if isinstance(op, ast.In) else z3.Not(c))
         elif isinstance(op, (ast.Eq, ast.NotEq)) and isinstance(left.t, (TMap,)) and isinstance(right.t, TMap):
@@ -224,9 +254,13 @@ def _tuple(node, sc):
     return Val(TTuple([i.t for i in items]), items)
 
 
-def _bound_var(argname, tname):
+def _bound_var(argname, tname, depth):
+    """Bound variables get deterministic names (argument name + quantifier nesting depth, which
+    excludes capture), so that the same predicate evaluated twice on the same state yields the
+    *identical* term (boolean-level reasoning then suffices for `implies(old(P), P')` clauses)."""
     t = parse_type(tname)
-    return t.fresh(argname), t
+    consts = [z3.Const(f"{argname}?{depth}.{i}", so) for i, so in enumerate(t.sorts())]
+    return t.make(consts), t
 
 
 def _call(node, sc):
@@ -240,11 +274,20 @@ def _call(node, sc):
         env = dict(sc.env)
         bvars = []
         for a, tn in zip(lam.args.args, tnames):
-            v, t = _bound_var(a.arg, ast.unparse(tn))
+            v, t = _bound_var(a.arg, ast.unparse(tn), sc.qdepth)
             env[a.arg] = v
             bvars += v.terms()
-        body = sv_bool(lam.body, sc.with_env(env))
+        sc2 = sc.with_env(env, deeper=True)
+        body = sv_bool(lam.body, sc2)
         q = z3.ForAll if f.value.id == "forall" else z3.Exists
+        pats = []
+        for pnode in node.args[1:]:  # optional triggers: forall[T](lambda x: body, "term", ("t1", "t2") ...)
+            if isinstance(pnode, ast.Constant):
+                pats.append(sv(pnode.value, sc2).terms()[0])
+            elif isinstance(pnode, ast.Tuple):
+                pats.append(z3.MultiPattern(*[sv(e.value, sc2).terms()[0] for e in pnode.elts]))
+        if pats:
+            return boolv(q(bvars, body, patterns=pats))
         return boolv(q(bvars, body))
     if isinstance(f, ast.Subscript) and isinstance(f.value, ast.Name) and f.value.id == "empty_map":
         t = parse_type("Map[" + ast.unparse(f.slice).strip("()") + "]")
@@ -262,6 +305,13 @@ def _call(node, sc):
     name = f.id
     if name == "old":
         return sv(node.args[0], sc.as_old())
+    if name == "at_head":  # value of an expression at the head of the current loop iteration
+        hs = sc.ghost.get("__head__")
+        if hs is None:
+            raise Unsupported("at_head() outside a loop hint")
+        sc_h = Scope(hs.env, hs.heap, sc.old_heap, sc.old_env, hs.alloc, sc.alloc0, sc.ghost)
+        sc_h.qdepth = sc.qdepth
+        return sv(node.args[0], sc_h)
     if name == "implies":
         return boolv(z3.Implies(sv_bool(node.args[0], sc), sv_bool(node.args[1], sc)))
     if name == "iff":
@@ -297,6 +347,15 @@ def _call(node, sc):
         if isinstance(x.t, TMap):
             return Val(TSetV(x.t.k), x.v[0])
         raise Unsupported(f"keys() of {x.t}")
+    if name == "vals":
+        from .core import TArr
+
+        x = args[0]
+        if isinstance(x.t, TDict):
+            x = heapops.dict_as_map(sc.heap, x)
+        if isinstance(x.t, TMap):
+            return Val(TArr(x.t.k, x.t.v), x.v[1])
+        raise Unsupported(f"vals() of {x.t}")
     if name == "len":
         return ops.length(heapops, sc.heap, args[0])
     if name == "isinstance":
@@ -345,6 +404,19 @@ def _call(node, sc):
         return boolv(val_eq(x, NONEV))
     if name == "some":  # value of an Opt known to be non-None
         return _deopt(args[0])
+    if name == "is_exc":  # union value holds an exception object
+        from .core import TExcObj
+
+        x = args[0]
+        if isinstance(x.t, TUnion):
+            return boolv(z3.Or(*[x.v[0] == i for i, a in enumerate(x.t.alts) if isinstance(a, TExcObj)]))
+        return boolv(isinstance(x.t, TExcObj))
+    if name == "num_of":  # numeric alternative of a union
+        x = args[0]
+        for i, a in enumerate(x.t.alts):
+            if isinstance(a, (TNum, TInt)):
+                return x.v[1][i]
+        raise Unsupported("num_of")
     if name == "tag":  # union tag
         return Val(INT, args[0].v[0])
     if name == "alt":
